@@ -305,21 +305,19 @@ def translate() -> tuple[str, dict]:
     send = _fn(tep, "send")
     if [a.arg for a in send.args.args] != ["self", "address", "packet"]:
         raise TranslatorError("TunnelEndpoint.send: unexpected signature")
-    # prefix = packet[:N]
-    pl = None
+    # prefix = packet[:N]  (or the slice used in place)
+    bounds = set()
     for n in ast.walk(send):
-        if isinstance(n, ast.Assign) and len(n.targets) == 1 and isinstance(n.targets[0], ast.Name) \
-                and n.targets[0].id == "prefix":
-            v = n.value
-            if isinstance(v, ast.Subscript) and isinstance(v.value, ast.Name) and v.value.id == "packet" \
-                    and isinstance(v.slice, ast.Slice) and v.slice.lower is None and v.slice.step is None \
-                    and isinstance(v.slice.upper, ast.Constant) and isinstance(v.slice.upper.value, int) \
-                    and v.slice.upper.value >= 0:
-                pl = v.slice.upper.value
+        if isinstance(n, ast.Subscript) and isinstance(n.value, ast.Name) and n.value.id == "packet":
+            sl = n.slice
+            if isinstance(sl, ast.Slice) and sl.lower is None and sl.step is None and isinstance(sl.upper, ast.Constant) \
+                    and isinstance(sl.upper.value, int) and sl.upper.value >= 0:
+                bounds.add(sl.upper.value)
             else:
-                raise TranslatorError(f"TunnelEndpoint.send: prefix is `{ast.unparse(v)}`, not packet[:N]")
-    if pl is None:
-        raise TranslatorError("TunnelEndpoint.send: no `prefix = packet[:N]`")
+                raise TranslatorError(f"TunnelEndpoint.send: packet is sliced as `{ast.unparse(n)}`, not packet[:N]")
+    if len(bounds) != 1:
+        raise TranslatorError(f"TunnelEndpoint.send: expected one prefix slice packet[:N], found bounds {sorted(bounds)}")
+    pl = bounds.pop()
     out += ["/-- TunnelEndpoint.send: `prefix = packet[:N]` -/", f"def prefixLen : Nat := {pl}"]
     meta["prefix_len"] = pl
 
@@ -545,7 +543,195 @@ def translate() -> tuple[str, dict]:
     return "\n".join(out), meta
 
 
+# ---------------------------------------------------------------------------------------------------------------------
+# TunnelEndpoint.send  ->  lean/Ipv8/C07/GenSend.lean   (control flow as a composition of the actions of Prims.lean)
+# ---------------------------------------------------------------------------------------------------------------------
+class _SendTr:
+    """
+    Statement subset (anything else: TranslatorError):
+      prefix = packet[:N]                      tunnel_community = self.tunnel_community
+      circuits = <tc>.find_circuits(...)       circuit = next((c for c in circuits if c.state == READY), None)
+      circuit = circuits[0] if circuits else None                  circuit_id = circuit.circuit_id
+      if <cond>: ... [else: ...]     return
+      self.endpoint.send(address, packet)                          -> actRaw
+      <tc>.create_circuit(...)                                     -> actCreate   (arguments translated into GenTunnel)
+      self.send_queue.append((address, packet))                    -> actEnqueue
+      <tc>.send_data(circuit.hop.address, circuit_id, address, ("0.0.0.0", 0), packet)
+        + while self.send_queue: address, packet = self.send_queue.popleft(); <tc>.send_data(… same …)   -> actSendOver
+    Conditions: not / and / or (short-circuit, constant-folded on what is known about `circuit`),
+      self.settings.get(prefix, False), self.tunnel_community [is (not) None], circuit, circuits,
+      circuit.state ==/!= CIRCUIT_STATE_READY.
+    A path that ends without the packet having been sent raw / queued / tunnelled gets the ghost action actGhostDrop.
+    Conditions are evaluated on the state at entry, so none may follow a state-changing action on its path.
+    """
+    MUTATING = ("actCreate", "actEnqueue", "actSendOver")
+
+    def __init__(self):
+        self.tc_names = {"self.tunnel_community"}
+
+    def is_tc(self, e):
+        return ast.unparse(e) in self.tc_names
+
+    def finish(self, acts, handled):
+        acts = list(acts) + ([] if handled else ["actGhostDrop a p"])
+        term = "Act.done"
+        for a in reversed(acts):
+            term = f"Act.seq ({a}) ({term})"
+        return f"({term}) s"
+
+    def const_not(self, c):
+        return {"true": "false", "false": "true"}.get(c, f"(!{c})")
+
+    def cond(self, e, env):
+        if isinstance(e, ast.UnaryOp) and isinstance(e.op, ast.Not):
+            return self.const_not(self.cond(e.operand, env))
+        if isinstance(e, ast.BoolOp):
+            is_or = isinstance(e.op, ast.Or)
+            parts = []
+            for v in e.values:
+                c = self.cond(v, env)
+                if c == ("true" if is_or else "false"):
+                    return c                       # short circuit: later operands are not evaluated
+                if c == ("false" if is_or else "true"):
+                    continue
+                parts.append(c)
+            if not parts:
+                return "false" if is_or else "true"
+            return "(" + (" || " if is_or else " && ").join(parts) + ")"
+        src = ast.unparse(e)
+        if src == "self.settings.get(prefix, False)" or (
+                src.startswith("self.settings.get(packet[:") and src.endswith("], False)")
+                and src[len("self.settings.get(packet[:"):-len("], False)")].isdigit()):
+            return "s.anonymized p"      # (the slice bound itself is translated into GenTunnel.prefixLen)
+        if src in ("circuit is None", "circuit is not None"):
+            k = env.get("circuit")
+            if k is None:
+                raise TranslatorError("send: `circuit` used before it is assigned")
+            return "true" if (k == "none") == (src == "circuit is None") else "false"
+        if src in self.tc_names or src in ("self.tunnel_community is not None",) \
+                or any(src == f"{n} is not None" for n in self.tc_names):
+            return "s.attached"
+        if any(src == f"{n} is None" for n in self.tc_names):
+            return "(!s.attached)"
+        if src == "circuits":
+            if not env.get("circuits"):
+                raise TranslatorError("send: `circuits` used before it is assigned")
+            return "(!circuits.isEmpty)"
+        if src == "circuit":
+            k = env.get("circuit")
+            if k is None:
+                raise TranslatorError("send: `circuit` used before it is assigned")
+            return "true" if k == "some" else "false"
+        if src in ("circuit.state != CIRCUIT_STATE_READY", "circuit.state == CIRCUIT_STATE_READY"):
+            if env.get("circuit") != "some":
+                raise TranslatorError(f"send: `{src}` evaluated where circuit may be None")
+            return "(c.state != .ready)" if "!=" in src else "(c.state == .ready)"
+        raise TranslatorError(f"send: unsupported condition `{src}`")
+
+    def ends_in_return(self, stmts):
+        return bool(stmts) and isinstance(stmts[-1], ast.Return)
+
+    def is_send_data(self, call):
+        if not (isinstance(call, ast.Call) and isinstance(call.func, ast.Attribute) and call.func.attr == "send_data"
+                and self.is_tc(call.func.value) and len(call.args) == 5 and not call.keywords):
+            return False
+        a = [ast.unparse(x) for x in call.args]
+        return a[0] == "circuit.hop.address" and a[1] in ("circuit_id", "circuit.circuit_id") and a[2] == "address" \
+            and a[3] == "('0.0.0.0', 0)" and a[4] == "packet"
+
+    def tr(self, stmts, acts, handled, env, ind):
+        pad = "  " * ind
+        if not stmts:
+            return pad + self.finish(acts, handled)
+        st, rest = stmts[0], stmts[1:]
+        mutated = any(a.split()[0] in self.MUTATING for a in acts)
+        if isinstance(st, ast.Return):
+            if st.value is not None:
+                raise TranslatorError("send: returns a value")
+            return pad + self.finish(acts, handled)
+        if isinstance(st, ast.Assign) and len(st.targets) == 1 and isinstance(st.targets[0], ast.Name):
+            name, val = st.targets[0].id, st.value
+            src = ast.unparse(val)
+            if name == "prefix":
+                return self.tr(rest, acts, handled, env, ind)
+            if src in self.tc_names and name != "circuit":
+                self.tc_names = self.tc_names | {name}
+                return self.tr(rest, acts, handled, env, ind)
+            if name == "circuits" and isinstance(val, ast.Call) and isinstance(val.func, ast.Attribute) \
+                    and val.func.attr == "find_circuits" and self.is_tc(val.func.value):
+                if mutated:
+                    raise TranslatorError("send: find_circuits after a state-changing action")
+                env = dict(env, circuits=True)
+                return f"{pad}let circuits := s.comm.find s.hops\n" + self.tr(rest, acts, handled, env, ind)
+            if name == "circuit":
+                if not env.get("circuits") or mutated:
+                    raise TranslatorError("send: `circuit` chosen before `circuits` is known")
+                if src == "next((c for c in circuits if c.state == CIRCUIT_STATE_READY), None)":
+                    pick = "circuits.find? (fun c => c.state == .ready)"
+                elif src == "circuits[0] if circuits else None":
+                    pick = "circuits.head?"
+                else:
+                    raise TranslatorError(f"send: unsupported choice of circuit `{src}`")
+                return (f"{pad}match {pick} with\n{pad}| none =>\n"
+                        + self.tr(rest, acts, handled, dict(env, circuit="none"), ind + 2)
+                        + f"\n{pad}| some c =>\n" + self.tr(rest, acts, handled, dict(env, circuit="some"), ind + 2))
+            if name == "circuit_id" and src == "circuit.circuit_id":
+                if env.get("circuit") != "some":
+                    raise TranslatorError("send: circuit.circuit_id read where circuit may be None")
+                return self.tr(rest, acts, handled, env, ind)
+            raise TranslatorError(f"send: unsupported assignment `{ast.unparse(st)}`")
+        if isinstance(st, ast.If):
+            if mutated:
+                raise TranslatorError("send: a condition is evaluated after a state-changing action")
+            c = self.cond(st.test, env)
+            then_stmts = list(st.body) + ([] if self.ends_in_return(st.body) else rest)
+            else_stmts = list(st.orelse) + ([] if self.ends_in_return(st.orelse) else rest)
+            if c == "true":
+                return self.tr(then_stmts, acts, handled, env, ind)
+            if c == "false":
+                return self.tr(else_stmts, acts, handled, env, ind)
+            return (f"{pad}if {c} then\n" + self.tr(then_stmts, acts, handled, env, ind + 1)
+                    + f"\n{pad}else\n" + self.tr(else_stmts, acts, handled, env, ind + 1))
+        if isinstance(st, ast.Expr) and isinstance(st.value, ast.Call):
+            call = st.value
+            src = ast.unparse(call)
+            if src == "self.endpoint.send(address, packet)":
+                return self.tr(rest, acts + ["actRaw a p"], True, env, ind)
+            if isinstance(call.func, ast.Attribute) and call.func.attr == "create_circuit" and self.is_tc(call.func.value):
+                return self.tr(rest, acts + ["actCreate"], handled, env, ind)
+            if src == "self.send_queue.append((address, packet))":
+                return self.tr(rest, acts + ["actEnqueue a p"], True, env, ind)
+            if self.is_send_data(call):
+                if env.get("circuit") != "some":
+                    raise TranslatorError("send: send_data where circuit may be None")
+                loop = rest[0] if rest else None
+                ok = (isinstance(loop, ast.While) and ast.unparse(loop.test) == "self.send_queue" and not loop.orelse
+                      and len(loop.body) == 2
+                      and ast.unparse(loop.body[0]) == "address, packet = self.send_queue.popleft()"
+                      and isinstance(loop.body[1], ast.Expr) and self.is_send_data(loop.body[1].value))
+                if not ok:
+                    raise TranslatorError("send: send_data is not followed by `while self.send_queue: address, packet = "
+                                          "self.send_queue.popleft(); send_data(… same circuit …)`")
+                return self.tr(rest[1:], acts + ["actSendOver c a p"], True, env, ind)
+            if _is_logging(st):
+                return self.tr(rest, acts, handled, env, ind)
+        raise TranslatorError(f"send: unsupported statement `{ast.unparse(st)[:90]}`")
+
+
+def translate_send() -> str:
+    ep = _parse(EP)
+    send = _fn(_cls(ep, "TunnelEndpoint", EP), "send")
+    if [a.arg for a in send.args.args] != ["self", "address", "packet"]:
+        raise TranslatorError("TunnelEndpoint.send: unexpected signature")
+    term = _SendTr().tr(_body(send), [], False, {}, 1)
+    return "\n".join(["/- GENERATED by tools/gen_c07.py from " + EP + " (TunnelEndpoint.send) — do not edit -/",
+                      "import Ipv8.C07.Prims", "", "namespace Ipv8.C07", "",
+                      "/-- translated from TunnelEndpoint.send: which action happens under which condition -/",
+                      "def send (s : State) (a : Addr) (p : Bytes) : State × List Event :=", term, "",
+                      "end Ipv8.C07", ""])
+
+
 if __name__ == "__main__":
     import sys
     src, meta = translate()
-    sys.stdout.write(src)
+    sys.stdout.write(translate_send() if "--send" in sys.argv else src)
